@@ -78,6 +78,8 @@ RULE = ('cases = (a) histories over a pool of 1-6 tasks (names incl. unicode / b
         'non-trivial = a read performed while the file of a task whose last complete write was DONE is '
         'faulty (or its read fails) and at least one other requested task is intact and DONE; distinct = '
         '(statuses of the pool, fault kind, byte offset)')
+RULE_ADDENDA = (' Also: payload objects of classes outside builtins / numpy / valjean, graphs (cycles, shared lists), chains of 600-700 nested lists; rewrite sweep (crash of a second write at every byte); reads that ask for a never-written task with a 344-byte name.')
+RULE = RULE + RULE_ADDENDA
 ASSUMPTIONS = [
     'task names are what path.sanitize_filename accepts (no "/", no NUL, not "." or ".."), non-empty, '
     'unique; output_dir of a task is root/<name> as a str (the shape RunTask, Use(serialize=True), '
